@@ -137,10 +137,21 @@ func (pass *DisjunctionInferMapping) inferDiscriminatorField(schema *ast.Schema,
 			}
 		}
 
-		if existsInAllBranches {
-			fieldName = candidateFieldName
-			break
+		if !existsInAllBranches {
+			continue
 		}
+
+		// a discriminator tells the branches apart: a constant that has the same value in two branches does not
+		distinctValues := make(map[any]struct{}, len(allTypes))
+		for _, branchTypeName := range allTypes {
+			distinctValues[fmt.Sprintf("%v", candidates[branchTypeName][candidateFieldName])] = struct{}{}
+		}
+		if len(distinctValues) != len(allTypes) {
+			continue
+		}
+
+		fieldName = candidateFieldName
+		break
 	}
 
 	return fieldName, fieldName != ""
